@@ -285,7 +285,50 @@ def rp_predicate(args, res):
     return got == want
 
 
-PREDICATES = dict(merge=merge_predicate, lo=lo_predicate, of=of_predicate, md=md_predicate, rp=rp_predicate,
+def rpq_predicate(args, res):
+    """ReadPartitions against a broker that answers what is on the wire.  Stated from the
+    caller's side: the topics asked are the caller's, else the connection's, else ALL
+    (a null array on the wire, never an empty one), and the result lists exactly the
+    cluster's partitions (topic, id, error) of those topics, in order — or the error of
+    the first failing topic that concerns the connection."""
+    v6, ct, arg, th, cl, ctrl, bs, ts = args.split(" ")
+    q, r = res.split(" ", 1)
+    if "BAD" in r or "?" in q:
+        return False
+    names = [] if arg in ("-", ".") else arg.split(",")
+    if not names and ct != ".":
+        names = [ct]
+    wire = ",".join(names) if names else "-"
+    if q != "Q" + wire:
+        return False
+    cluster = []
+    if ts != ".":
+        for t in ts.split(";"):
+            hd, parts = t.split(":")
+            e, n, i = hd.split("/")
+            cluster.append((n, e, [tuple(p.split("/")[:2]) for p in (parts.split(",") if parts else [])]))
+    if names:
+        asked, seen = [], set()
+        for n in names:
+            if n in seen:
+                continue
+            seen.add(n)
+            hit = [c for c in cluster if c[0] == n]
+            asked.append(hit[0] if hit else (n, "3", []))
+    else:
+        asked = cluster
+    want = []
+    for n, e, parts in asked:
+        if e != "0" and (ct == "." or n == ct):
+            return r == "err:" + e
+        want += [(n, idx, pe) for pe, idx in parts]
+    if not r.startswith("ok:"):
+        return False
+    got = [] if r == "ok:." else [tuple(p.split("/")[:3]) for p in r[3:].split(",")]
+    return got == want
+
+
+PREDICATES = dict(rpq=rpq_predicate, merge=merge_predicate, lo=lo_predicate, of=of_predicate, md=md_predicate, rp=rp_predicate,
                   seek=seek_predicate)
 
 
@@ -361,6 +404,12 @@ def correspondence(ctx):
     for tag in ("shortcut-example", "regression-current-sentinel", "regression-partition-error"):
         if not any(tag in c["feats"] for c in cases):
             failures.append(dict(layer="correspondence", what=f"regression case {tag} was not run on the implementation", detail="", input=None))
+    # every shape of the ReadPartitions argument must have met a Conn with and without topic on both metadata versions
+    for shape in ("arg-none", "arg-nil-slice", "arg-empty-nonnil", "arg-empty-cfg", "arg-resliced-empty", "arg-one", "arg-several", "arg-duplicates"):
+        for conn in ("no-conn-topic", "conn-topic"):
+            for ver in ("v1", "v6"):
+                if not any(c["op"] == "rpq" and {shape, conn, ver} <= set(c["feats"].split(",")) for c in cases):
+                    failures.append(dict(layer="correspondence", what=f"ReadPartitions case {shape} x {conn} x {ver} was not run on the implementation", detail="", input=None))
     ev, dn, hist = L.coverage_counts(cases, trivial_feats=("", "faithful,none-failed,subs=1", "none-failed", "subs=0", "no-topics", "v1", "v6", "faithful,first", "faithful,last", "faithful,time", "absolute", "start", "end"))
     ops = {}
     for c in cases:
@@ -373,7 +422,7 @@ def correspondence(ctx):
                      "and Merge on requests not produced by Split incl. fewer/more results than requests. Tier 2: Client.ListOffsets/OffsetFetch/OffsetCommit/ConsumerOffsets/Metadata through a fake RoundTripper "
                      "over generated clusters (1-5 brokers some unreachable, 1-5 topics, 1-6 partitions with log start/end, timestamp index, leader, epoch, per-partition errors, committed offsets per group, commit/fetch errors, "
                      "unknown topics/partitions, duplicate node ids, unknown/-1 leaders). Tier 3: Conn.Seek histories of 1..6 steps (all whence values, SeekDontCheck, invalid whence, moving log bounds, boundary and +-1 offsets, "
-                     "int64 extremes, broker errors on the first/second request) plus regression cases (SeekCurrent from the FirstOffset/LastOffset placeholders, leaderless partition in ReadPartitions), ReadFirstOffset/ReadLastOffset/ReadOffset and ReadPartitions (metadata v1 and v6) against a wire-level peer over net.Pipe. "
+                     "int64 extremes, broker errors on the first/second request) plus regression cases (SeekCurrent from the FirstOffset/LastOffset placeholders, leaderless partition in ReadPartitions), ReadFirstOffset/ReadLastOffset/ReadOffset and ReadPartitions (metadata v1 and v6) against a wire-level peer over net.Pipe; ReadPartitions argument shapes {no argument, nil slice, empty non-nil slice (literal, empty config, l[:0]), one topic, several, duplicates} x Conn {with, without topic} x metadata {v1, v6} against a peer that holds a cluster and answers according to the topic array decoded by hand from the raw request frame (null = all topics, empty = none, list = those). "
                      "A case is non-trivial when its feature vector is not a happy-path default (single faithful answer, no failure, plain whence); distinct by hash of op+args",
                 samples=[c["line"][:300] + " | " + c["go"][:120] for c in cases[:2] + cases[len(cases)//3:len(cases)//3+2] + cases[2*len(cases)//3:2*len(cases)//3+2] + cases[-2:]],
                 failures=failures)
